@@ -477,7 +477,10 @@ class CodeBuilder:
 
                     allowed_keys_str = ", ".join(map(repr, allowed_keys))
 
-                    self.add_line("d_keys = set(d.keys())")
+                    with self.indent("try:"):
+                        self.add_line("d_keys = set(d.keys())")
+                    with self.indent("except AttributeError:"):
+                        self._add_not_a_dict_lines(method_name)
                     self.add_line(
                         f"forbidden_keys = d_keys - {{{allowed_keys_str}}}"
                     )
@@ -518,14 +521,7 @@ class CodeBuilder:
                             else:
                                 pos_args.append(field_block.fname)
                 with self.indent("except AttributeError:"):
-                    with self.indent("if not isinstance(d, dict):"):
-                        self.add_line(
-                            "raise ValueError('Argument for "
-                            f"{type_name(self.cls)}.{method_name} method "
-                            "should be a dict instance') from None"
-                        )
-                    with self.indent("else:"):
-                        self.add_line("raise")
+                    self._add_not_a_dict_lines(method_name)
 
             args = [f"__{f}" for f in pos_args]
             for kw_arg in kw_args:
@@ -538,6 +534,16 @@ class CodeBuilder:
                 self.add_line(f"return cls.{__POST_DESERIALIZE__}({cls_inst})")
             else:
                 self.add_line(f"return {cls_inst}")
+
+    def _add_not_a_dict_lines(self, method_name: str) -> None:
+        with self.indent("if not isinstance(d, dict):"):
+            self.add_line(
+                "raise ValueError('Argument for "
+                f"{type_name(self.cls)}.{method_name} method "
+                "should be a dict instance') from None"
+            )
+        with self.indent("else:"):
+            self.add_line("raise")
 
     def _add_unpack_method_with_dialect_lines(self, method_name: str) -> None:
         if self.decoder is not None:
